@@ -10,6 +10,9 @@ pub fn nontrivial(r: &RefObs) -> bool {
 }
 
 pub fn replay(case: &serde_json::Value) -> Option<Violation> {
+    if case.get("kind").and_then(|k| k.as_str()) == Some("cli-file") {
+        return cli_file_case(case.get("text")?.as_str()?).err();
+    }
     replay_src("C01", case)
 }
 
@@ -137,6 +140,150 @@ fn scale_family(rep: &mut Report) {
     rep.sample(serde_json::json!({"scale": "stel g0 = 1 ... stel g999 = 2998; [g0, g1, g127, g128, g254, g255, g256, g257, g511, g512, g999]"}));
 }
 
+// ---------------------------------------------------------------------------------------
+// The command-line program given a file (src/bin/nederlang.rs run_file): what it writes must be what the library evaluates
+// for the same text - the printed output, then the value (an empty line for null), or one error of the same kind on stderr.
+
+pub fn cli_file_case(text: &str) -> Result<Option<()>, Violation> {
+    use std::io::Read;
+    use std::os::unix::process::CommandExt;
+    let o = crate::engine::run_eval(text, &crate::engine::RunCfg { budget: 300_000, audit_heap: true });
+    let mut want_out = o.output.clone();
+    let mut want_err: Vec<&'static str> = Vec::new();
+    match &o.outcome {
+        crate::engine::Outcome::Value(v) => match crate::props::c17::shown(v, &mut Vec::new(), &mut std::collections::HashMap::new(), true) {
+            Some(t) => {
+                want_out.push_str(&t);
+                want_out.push('\n');
+            }
+            None => return Ok(None),
+        },
+        crate::engine::Outcome::Error(k) => want_err.push(k.name()),
+        _ => return Ok(None),
+    }
+    let file = crate::report::verif_dir().join(format!("work/cli-file-{}-{:?}.nl", std::process::id(), std::thread::current().id()).replace(['(', ')'], ""));
+    let _ = std::fs::write(&file, text.as_bytes());
+    let child = std::process::Command::new("timeout")
+        .process_group(0)
+        .arg("--signal=KILL")
+        .arg("60")
+        .arg(crate::props::c17::repl_exe())
+        .arg(&file)
+        .stdin(std::process::Stdio::null())
+        .stdout(std::process::Stdio::piped())
+        .stderr(std::process::Stdio::piped())
+        .spawn();
+    let mut child = match child {
+        Ok(c) => c,
+        Err(e) => {
+            eprintln!("C01: cannot run the command-line program: {e} (the check script builds it)");
+            std::process::exit(2)
+        }
+    };
+    let mut so = child.stdout.take();
+    let mut se = child.stderr.take();
+    let t_out = std::thread::spawn(move || {
+        let mut b = Vec::new();
+        if let Some(o) = so.as_mut() {
+            let _ = o.take(1 << 22).read_to_end(&mut b);
+            let _ = std::io::copy(o, &mut std::io::sink());
+        }
+        String::from_utf8_lossy(&b).to_string()
+    });
+    let t_err = std::thread::spawn(move || {
+        let mut b = Vec::new();
+        if let Some(o) = se.as_mut() {
+            let _ = o.take(1 << 20).read_to_end(&mut b);
+            let _ = std::io::copy(o, &mut std::io::sink());
+        }
+        String::from_utf8_lossy(&b).to_string()
+    });
+    let st = child.wait();
+    let got_out = t_out.join().unwrap_or_default();
+    let got_err = t_err.join().unwrap_or_default();
+    let _ = std::fs::remove_file(&file);
+    let code = st.ok().and_then(|s| s.code());
+    let bad = |class: &str, expected: String, observed: String| Violation {
+        property: "C01".into(),
+        driver: "command-line-file".into(),
+        class: class.into(),
+        case: serde_json::json!({"kind": "cli-file", "text": text}),
+        expected: expected.chars().take(600).collect(),
+        observed: observed.chars().take(600).collect(),
+    };
+    if !matches!(code, Some(c) if (0..100).contains(&c)) || got_err.contains("panicked at") {
+        return Err(bad("cli-file:does-not-end-in-order", "an orderly end".into(), format!("status {code:?}; stderr {}", got_err.chars().take(300).collect::<String>())));
+    }
+    if got_out != want_out {
+        return Err(bad("cli-file:stdout", format!("{want_out:?}"), format!("{got_out:?}")));
+    }
+    let got_kinds = crate::props::c17::kinds_named(&got_err);
+    if got_kinds != want_err {
+        return Err(bad("cli-file:stderr", format!("{want_err:?}"), format!("{got_kinds:?}")));
+    }
+    Ok(Some(()))
+}
+
+fn cli_file_family(rep: &mut Report, ctx: &Ctx) {
+    use proptest::prelude::RngCore;
+    let mut texts: Vec<String> = vec![
+        "stel t = \"regel een\r\ntwee\"\r\nprint(\"{}\", lengte(t))\r\nt[9]".into(),
+        "stel t = \"a\rb\"\nlengte(t)".into(),
+        "stel t = \"tab\there\"; print(t); [lengte(t), t]".into(),
+        "print(\"een\")\r\nprint(\"twee\")\r\n\r\n3 // slot\r\n".into(),
+        "\u{feff}1".into(),
+        "1 +".into(),
+        "onbekend".into(),
+        "print(\"voor\"); 1 / 0".into(),
+        "[1, [2.5, \"drie\"], ja, []]".into(),
+        "stel a = [1]; a[0] = a; a".into(),
+        "\"\"".into(),
+        "als nee { 1 }".into(),
+    ];
+    let n = ctx.pick(600u32, 12_000u32);
+    let mut runner = crate::tape::runner(ctx.seed.wrapping_mul(920_419_823), 1);
+    let profile = Profile::general();
+    for k in 0..n {
+        let mut tape = vec![0u8; 300];
+        runner.rng().fill_bytes(&mut tape);
+        let (prog, _) = crate::gen::gen_program(&tape, &profile);
+        let text = crate::printer::print_canonical(&prog);
+        // a third with Windows line ends between the statements
+        texts.push(if k % 3 == 0 { text.replace(" ; ", " ;\r\n") } else { text });
+    }
+    let texts = std::sync::Arc::new(texts);
+    let shards = ctx.shards;
+    let failures = std::sync::Arc::new(std::sync::atomic::AtomicUsize::new(0));
+    let sub = par_shards(shards, Report::new("C01", "exploration", ""), {
+        let texts = texts.clone();
+        let failures = failures.clone();
+        move |shard, r| {
+            for (i, text) in texts.iter().enumerate() {
+                if i % shards != shard || failures.load(std::sync::atomic::Ordering::Relaxed) >= 3 {
+                    continue;
+                }
+                match cli_file_case(text) {
+                    Ok(Some(())) => {
+                        r.eval();
+                        r.count("command-line-file");
+                        if text.len() > 40 {
+                            r.nontrivial(&format!("cli-file:{text}"));
+                        }
+                    }
+                    Ok(None) => r.count("command-line-file:not-judged"),
+                    Err(v) => {
+                        failures.fetch_add(1, std::sync::atomic::Ordering::Relaxed);
+                        r.violation(v);
+                    }
+                }
+                crate::engine::note_current("done", "");
+            }
+        }
+    });
+    rep.merge(sub);
+    rep.sample(serde_json::json!({"command-line-file": "stel t = \"regel een<CR><LF>twee\"; lengte(t)", "expects": "what the library evaluates: 15"}));
+}
+
 pub fn run(ctx: &Ctx) -> Report {
     let mut rep = Report::new(
         "C01",
@@ -144,6 +291,7 @@ pub fn run(ctx: &Ctx) -> Report {
         "type-directed programs generated from proptest choice tapes (profile `general`: all statement forms, operators, builtins, functions, recursion, arrays, strings, \
          with at most one injected fault), printed canonically, evaluated by nederlang::eval and by the definitional reference interpreter; \
          plus about 90 programs that are large in one dimension (200 ... 3000 globals, locals, constants of every type, functions, list elements, statements; branches, loop and function bodies of thousands of bytes; 255 parameters; 100 000 iterations; recursion and lists of 10 000; 150 nested scopes), against the same oracle; \
+         the command-line program given a file (generated programs, a third with CR LF line ends, and texts with line ends inside literals) must write what the library evaluates for the same text; \
          results compared structurally (value graph with sharing, output bytes, error kind). non-trivial = the run executed >=1 call or loop iteration and touched >=2 feature classes; distinct by source text",
     );
     rep.assumptions.push("the reference interpreter (harness/src/refint.rs) is the specification; behaviours listed in DESIGN.md 4.3 (U1-U21) are discarded, not judged".into());
@@ -151,8 +299,12 @@ pub fn run(ctx: &Ctx) -> Report {
     let cases = ctx.pick(400_000u32, 12_000_000u32) / ctx.shards as u32;
     let seed = ctx.seed;
     scale_family(&mut rep);
-    par_shards(ctx.shards, rep, move |shard, r| {
+    let mut rep = par_shards(ctx.shards, rep, move |shard, r| {
         let cfg = DiffCfg { prop: "C01", driver: "random-general", profile: Profile::general(), cases, max_len: 600, seed: seed.wrapping_mul(7919) + shard as u64, layout: true };
         run_diff_tapes(r, &cfg, &nontrivial, &known);
-    })
+    });
+    if std::env::var("NLV_NO_CLI").is_err() {
+        cli_file_family(&mut rep, ctx);
+    }
+    rep
 }
